@@ -608,6 +608,12 @@ m('C14', 'user_filter_in_merge_window', 'src/core/map_fil_col.rs', """pub fn par
     }""", 'C14-WINDOW')
 
 # ------------------------------------------------------------------------------------------ C15
+m('C15', 'workers_get_small_fixed_stack', 'src/core/runner.rs', """                            s.spawn(move || thread_task(chunk));
+                            num_spawned += 1;""", """                            std::thread::Builder::new().stack_size(128 * 1024).spawn_scoped(s, move || thread_task(chunk)).expect("failed to spawn thread");
+                            num_spawned += 1;""", 'C15-STACK')
+b('C15', 'workers_spawned_through_named_builder', 'src/core/runner.rs', """                            s.spawn(move || thread_task(chunk));
+                            num_spawned += 1;""", """                            std::thread::Builder::new().name("orx-parallel worker".to_string()).spawn_scoped(s, move || thread_task(chunk)).expect("failed to spawn thread");
+                            num_spawned += 1;""")
 m('C15', 'exact_chunk_not_clamped_by_len', 'src/core/runner_settings/chunk_size.rs', 'Some(len) => chunk_size.min(len.max(1)),', 'Some(_len) => chunk_size,', 'C15-CHUNKCAP')
 m('C15', 'min_chunk_checked_mul_catch_all', 'src/core/runner_settings/chunk_size.rs', """            let one_round_len = max_num_threads.saturating_mul(chunk_size);
             match one_round_len.cmp(&len) {
